@@ -183,6 +183,10 @@ func init() {
 				// aaa carries a neutral rate with an interval since block 1 and time has passed
 				seeds = append(seeds, []world.Op{opDel(0, 0, "aaa", "10"), opDel(1, 1, "aaa", "3"), opBlock(1),
 					{K: world.KGovUpdate, Denom: "aaa", Args: govArgs("authority", "1", "0,5", "0.3", "1", int64(U), false)}, opBlock(7), opBlock(300)})
+				// aaa is one block away from a scheduled step that takes its weight to exactly zero (rate 1e-18 per nanosecond) while the
+				// module still carries stake for it on the validators
+				seeds = append(seeds, []world.Op{opDel(0, 0, "aaa", "10"), opDel(1, 1, "aaa", "3"), opBlock(1),
+					{K: world.KGovUpdate, Denom: "aaa", Args: govArgs("authority", "1", "0,5", "0.3", "0.000000000000000001", 1, false)}, opBlock(1)})
 				if cfg.FullPipeline {
 					seeds = append(seeds, slashed)
 				}
